@@ -1111,6 +1111,9 @@ func ruleNoRetryAfterParseError(c *Ctx, rid string) {
 		bad := ""
 		for _, b := range cl.Loop.sortedBlocks() {
 			for idx, s := range b.Succs {
+				if deadEdge(b, idx) {
+					continue
+				}
 				isErrEdge := false
 				for _, at := range edgeOnly(b, idx) {
 					if at.Kind == "nil" && !at.Pos && at.X == errEx {
